@@ -195,15 +195,19 @@ class EspReal(Case):
     @property
     def concrete(self):
         c = self.params.get("exps")
-        if not c:
+        pin = dict(self.params.get("pin") or {})  # Level-B concretisation of further named inputs (geometry)
+        if not c and not pin:
             return None
-        return {f"{t}e{k}": v for t, vs in zip("ABCD", c) for k, v in enumerate(vs)}
+        pin.update({f"{t}e{k}": v for t, vs in zip("ABCD", c or []) for k, v in enumerate(vs)})
+        return pin
 
     def inputs(self, mk):
         p = self.params
         specs = cm.specs_from(mk, p)
         nb = sum(cm.nfun(l, t) * M for l, t, M in zip(p["ls"], p["types"], p["Ms"]))
-        return dict(specs=specs, P=sym_matrix(mk, nb), pt=[mk.var("p" + x) for x in "xyz"],
+        norb = p.get("norb")
+        T = [[mk.var(f"T{i}_{a}") for a in range(nb)] for i in range(norb)] if norb else None
+        return dict(specs=specs, P=sym_matrix(mk, norb or nb), T=T, pt=[mk.var("p" + x) for x in "xyz"],
                     nuc=[[mk.var(f"R{a}{x}") for x in "xyz"] for a in range(p["nnuc"])],
                     Z=[mk.var(f"Z{a}") for a in range(p["nnuc"])])
 
@@ -211,11 +215,18 @@ class EspReal(Case):
         from gbasis.evals.electrostatic_potential import electrostatic_potential
 
         basis = cm.basis_from(mk, I["specs"], self.params["types"])
-        return {"out": electrostatic_potential(basis, mk.array(I["P"]), mk.array([I["pt"]]), mk.array(I["nuc"]), mk.array(I["Z"]))}
+        kw = {"transform": mk.array(I["T"])} if I["T"] is not None else {}
+        return {"out": electrostatic_potential(basis, mk.array(I["P"]), mk.array([I["pt"]]), mk.array(I["nuc"]), mk.array(I["Z"]), **kw)}
 
     def ref(self, I, ops, mk):
         full = cm.ref_two_index(ops, I["specs"], self.params["types"], lambda A, B: G.nuclear_prim(ops, A, B, I["pt"]))
         tot = ops.zero
+        T = I["T"]
+        if T is not None:
+            # transformed basis: V' = T V T^T (orbital i = sum_a T[i][a] chi_a), square or rectangular
+            n = len(full)
+            TV = [[sum((T[i][a] * full[a][b] for a in range(n)), ops.zero) for b in range(n)] for i in range(len(T))]
+            full = [[sum((TV[i][b] * T[j][b] for b in range(n)), ops.zero) for j in range(len(T))] for i in range(len(T))]
         for a in range(len(full)):
             for b in range(len(full)):
                 tot = tot - I["P"][a][b] * full[a][b]
@@ -277,6 +288,10 @@ def cases(tier, seed=0):
     out.append(EspReal(ls=[1], types="c", Ks=[1], Ms=[1], nnuc=2))
     # contracted shells with the primitives listed from diffuse to tight, concrete exponents
     out.append(EspReal(ls=[0, 0], types="cc", Ks=[2, 2], Ms=[1, 1], nnuc=1, exps=[["3/10", "5"], ["2/5", "11/4"]]))
+    # real point-charge dispatch under a rectangular transformation of a mixed-type basis whose first shell is Cartesian and
+    # whose d shell is spherical (seed C14e: the coordinate types must reach the transformed route shell by shell)
+    out.append(EspReal(ls=[0, 2], types="cs", Ks=[1, 1], Ms=[1, 1], nnuc=1, norb=2, share={"1": 0}, exps=[["3/4"], ["5/4"]],
+                       pin={"Ax": "1/10", "Ay": "-1/5", "Az": "3/10", "px": "7/10", "py": "1/2", "pz": "-2/5", "R0x": "1", "R0y": "1/5", "R0z": "-3/5"}))
     if tier == "thorough":
         out.append(Esp(nao=3, npts=2, nnuc=2, tau="sym"))
         out.append(Esp(nao=4, npts=1, nnuc=1, tau="sym", norb=2))
